@@ -170,6 +170,17 @@ func (core *JApiCore) HasUnclosedExplicitContext() bool {
 	return false
 }
 
+// hasUnclosedExplicitContextInCurrentFile reports whether a context explicitly opened in the file that is being
+// scanned is still open. Contexts opened by an including file stay open across an INCLUDE directive.
+func (core *JApiCore) hasUnclosedExplicitContextInCurrentFile() bool {
+	for d := core.currentContextDirective; d != nil; d = d.Parent {
+		if d.HasExplicitContext && d.File() == core.scanner.File() {
+			return true
+		}
+	}
+	return false
+}
+
 func (core *JApiCore) processContextEnd() *jerr.JApiError {
 	if je := core.processCurrentDirective(); je != nil {
 		return je
@@ -182,7 +193,7 @@ func (core *JApiCore) processEOF() *jerr.JApiError {
 	if je := core.processCurrentDirective(); je != nil {
 		return je
 	}
-	if core.HasUnclosedExplicitContext() {
+	if core.hasUnclosedExplicitContextInCurrentFile() {
 		return core.japiError(jerr.ContextNotClosed, core.scanner.CurrentIndex()-1)
 	}
 	return nil
